@@ -24,6 +24,7 @@ package c11
 
 import (
 	"fmt"
+	"strings"
 
 	"github.com/nuetzliches/hookaido/internal/verifkit/runner"
 )
@@ -88,9 +89,28 @@ func (c cfgSpec) history() string {
 	case c.from() == nil:
 		return "fresh-boot"
 	case c.Refused:
-		return "after-refused-reload"
+		return "after-refused-reload" + c.candidateClass()
 	}
-	return "after-reload"
+	return "after-reload" + c.candidateClass()
+}
+
+// candidateClass (restart_test.go): what else the candidate of the pair changes — part of the violation key, so
+// that a failure that needs a renamed route or a restart-only setting is a class of its own.
+func (c cfgSpec) candidateClass() string {
+	if c.Restart == "" && c.Rename == "" {
+		return ""
+	}
+	var parts []string
+	if c.Restart != "" {
+		parts = append(parts, "restart-only-setting")
+	}
+	if c.Rename != "" {
+		parts = append(parts, "route-rename")
+	}
+	if f := c.from(); f != nil && listDistance(c, c.withLists(*f)) > 0 {
+		parts = append(parts, "token-lists")
+	}
+	return "(" + strings.Join(parts, "+") + ")"
 }
 
 // expectApplied: docs/configuration.md — token edits are applied live, another deployment needs a restart.
